@@ -164,7 +164,9 @@ SigLongRole == {SVec(Signed("gz", LongRole, "k1"), ask, <<"k1">>, NoTamper, <<1,
 \* "data_.tar.gz", "controlx.tar"): the package stays well-formed, loads its own members and verifies
 ExtraCtl(nm) == [Ctl("gz", <<CtlF("./control")>>, Fields(PkgDecoy, FALSE)) EXCEPT !.role = "extra-ctl", !.name = nm]
 ExtraDat(nm) == [Dat("gz", <<DataFile(3)>>) EXCEPT !.role = "extra-dat", !.name = nm]
-SigNear == {SVec(Signed("gz", "origin", "k1") \o <<x>>, "origin", <<"k1">>, NoTamper, <<1, 2, 3>>) :
+\* (40 loads each: a loader that looks members up in a map sees the near-miss member first only now and then, and a
+\* violation must show again when the vector is replayed alone)
+SigNear == {[SVec(Signed("gz", "origin", "k1") \o <<x>>, "origin", <<"k1">>, NoTamper, <<1, 2, 3>>) EXCEPT !.reps = 40] :
                x \in {ExtraCtl("control_.tar.gz"), ExtraCtl("controlx.tar.gz"), ExtraDat("data_.tar.gz"), ExtraDat("datax.tar.gz"), ExtraCtl("contro.tar.gz")}}
 C16Vecs == SigNear \cup SigLongRole \cup SigBasic \cup SigFlips \cup SigMore \cup SigMulti \cup SigDecoys \cup SigWrong \cup SigBare
 
